@@ -64,6 +64,22 @@ def ops_case(ctx, case):
         if kind == "tensordict" and not torch.equal(z["ids"], torch.arange(B).reshape(B, *([1] * (len(exp_shape) - 1))).expand(*exp_shape)):
             ctx.violation(dict(q="round_trip", kind="tensordict_entry", nesting=len(shape)), "TensorDict entry 'ids' does not survive the round trip", dict(B=B, shape=shape))
         ctx.nontrivial_case(dict(B=B, shape=shape, kind=kind, feat=feat))
+    # the attention-model decoder's embedding cache is replicated with the same layout (row r = instance r mod B)
+    if len(shape) == 1 and shape[0] > 1:
+        from rl4co.models.zoo.am.decoder import PrecomputedCache
+
+        k = shape[0]
+        emb = (torch.arange(B).float() * 1000).reshape(B, 1, 1).expand(B, 4, 3).clone()
+        cache = PrecomputedCache(node_embeddings=emb.clone(), graph_context=emb[:, :1].clone(), glimpse_key=emb.clone() + 1, glimpse_val=emb.clone() + 2, logit_key=emb.clone() + 3)
+        cb = cache.batchify(k)
+        ctx.evaluation()
+        ctx.count("c12_cache_batchify_calls")
+        want = (torch.arange(B * k) % B).float() * 1000
+        for nm, off_ in (("node_embeddings", 0), ("graph_context", 0), ("glimpse_key", 1), ("glimpse_val", 2), ("logit_key", 3)):
+            t = getattr(cb, nm)
+            if t.shape[0] != B * k or not torch.equal(t.reshape(B * k, -1)[:, 0] - off_, want):
+                ctx.violation(dict(q="row_instance", kind="decoder_cache", nesting=1), f"PrecomputedCache.batchify({k}): rows of {nm} are not instance r mod B (tags {(t.reshape(t.shape[0], -1)[:, 0] - off_).div(1000).long().tolist()})", dict(B=B, k=k))
+                break
     # inputs untouched (mutation sanitizer)
     if not torch.equal(fp_x, x) or td_fingerprint(td.flatten_keys()) != fp_td:
         ctx.violation(dict(q="input_mutated"), "batchify/unbatchify modified their input", dict(B=B, shape=shape))
